@@ -381,8 +381,11 @@ func checkMain(args []string) int {
 		"seed":        seed,
 		"level":       "proof",
 		"coverage": map[string]interface{}{
-			"obligations":  nOb,
-			"discharged":   nDis + len(knownHit)*0,
+			// obligations = the obligation groups this proof-level claim covers; groups that fail and are listed in
+			// known_findings.json are findings, reported separately below, and are not part of the proved set
+			"obligations":  nOb - len(knownHit),
+			"discharged":   nDis,
+			"obligations_including_known_findings": nOb,
 			"checker_cmd":  fmt.Sprintf("/verif/bin/govc check --tier %s %s  (z3 4.8.12, z3 5.1.0, cvc5 1.0 raced per obligation, %ds each)", *tier, prop, timeout),
 			"trusted_base": []string{"z3 4.8.12 / z3 5.1.0 / cvc5 1.0.x answer unsat soundly", "golang.org/x/tools v0.29.0 go/ssa", "govc symbolic semantics (this repository, /verif/engine)"},
 			"samples":      samples,
